@@ -89,6 +89,10 @@ class BusRun:
             if val == 'false':
                 return False
             if val == 'dict':
+                if inst % 2 == 0:
+                    # as real handlers may: the returned arguments also carry a blocking entry (for a facility nobody
+                    # uses here, so nothing is blocked); the other returned keys must still be taken over
+                    return {'a': hid, '_min_priority': {'verif_unused_facility': 1}}
                 return {'a': hid}
             return None
         return hnd
